@@ -521,6 +521,21 @@ func (ex *Exec) callFunction(fn *ssa.Function, args []Value, bind []Value) (ret 
 	if ex.depth > 200 {
 		panic(unsupported("call depth > 200 (recursion?) at " + fn.String()))
 	}
+	if ex.inThread() {
+		// thread mode: every read of a shared cell is a fresh variable, so a recursive re-entry
+		// (e.g. a woken waiter calling Get again) is feasible at any depth in the per-thread tree.
+		// The tree is cut at bmcMaxRecursion active frames of one function; the cut is an
+		// unwinding obligation (shown unreachable in the composed system, or reported).
+		n := 0
+		for f := ex.curFrame; f != nil; f = f.caller {
+			if f.fn == fn {
+				n++
+			}
+		}
+		if n >= bmcMaxRecursion {
+			panic(pathEnd{"seq-overflow"})
+		}
+	}
 	fr := &Frame{fn: fn, env: make(map[ssa.Value]Value, 32), visits: map[int]int{}, caller: ex.curFrame, callPos: ex.curPos}
 	ex.curFrame = fr
 	defer func() { ex.depth--; ex.curFrame = fr.caller }()
@@ -939,6 +954,9 @@ func (ex *Exec) store(p *Pointer, v Value) {
 	}
 	if w, ok := ex.watchLock[p.Obj]; ok {
 		ex.checkDiscipline(w, p, true)
+		if len(w.deep) > 0 {
+			ex.watchDeepValue(w, v)
+		}
 	}
 	if len(ex.watchPublish) > 0 {
 		if ex.watchPublish[fmt.Sprintf("%d%s", p.Obj.ID, pathKey(p.Path))] {
@@ -1877,6 +1895,12 @@ func (ex *Exec) chanRecv(c *ChanV, t types.Type) (Value, *Term) {
 		v := ex.freshOfType(t, &vars)
 		// a receiver first commits to waiting (its own step), then completes with a sender: between the
 		// two a non-blocking sender finds nobody waiting
+		ex.tm.parks++
+		if ex.tm.parks > bmcMaxParks {
+			// a thread that parks again and again (a retry loop around a blocking receive): cut,
+			// with an unwinding obligation
+			panic(pathEnd{"seq-overflow"})
+		}
 		ex.tmEvent(&Event{Kind: "park", Ch: ex.chanCode(c), Pos: ex.curPos})
 		ex.tmEvent(&Event{Kind: "recv", Ch: ex.chanCode(c), Vars: vars, Pos: ex.curPos})
 		return v, ex.tb.True
@@ -2077,12 +2101,59 @@ type lockWatch struct {
 	mutex  *Pointer
 	exempt map[int]bool // field indexes that are immutable after construction / not guarded
 	name   string
+	deep   []string // package paths: objects of named types from these packages that are reachable from the watched object are guarded by the same mutex
+}
+
+// watchDeep extends a deep watch to obj (and, transitively, to what it points to) when obj's type
+// comes from one of the watch's packages.
+func (ex *Exec) watchDeep(w *lockWatch, obj *Object) {
+	if obj == nil || len(w.deep) == 0 {
+		return
+	}
+	if _, ok := ex.watchLock[obj]; ok {
+		return
+	}
+	named, ok := obj.Typ.(*types.Named)
+	if !ok || named.Obj().Pkg() == nil {
+		return
+	}
+	in := false
+	for _, p := range w.deep {
+		if named.Obj().Pkg().Path() == p {
+			in = true
+		}
+	}
+	if !in {
+		return
+	}
+	ex.watchLock[obj] = &lockWatch{mutex: w.mutex, exempt: map[int]bool{}, name: typeStr(obj.Typ), deep: w.deep}
+	ex.watchDeepValue(w, obj.Val)
+}
+
+func (ex *Exec) watchDeepValue(w *lockWatch, v Value) {
+	switch x := v.(type) {
+	case *Pointer:
+		if x != nil && x.Obj != nil {
+			ex.watchDeep(w, x.Obj)
+		}
+	case StructV:
+		for _, f := range x {
+			ex.watchDeepValue(w, f)
+		}
+	case ArrayV:
+		for _, f := range x {
+			ex.watchDeepValue(w, f)
+		}
+	}
 }
 
 // checkDiscipline: an access to a watched object's field must happen while the object's mutex is
 // held (write mode for stores, any mode for loads).
 func (ex *Exec) checkDiscipline(w *lockWatch, p *Pointer, write bool) {
-	if len(p.Path) == 0 || w.exempt[p.Path[0].Idx] {
+	if len(p.Path) > 0 && w.exempt[p.Path[0].Idx] {
+		return
+	}
+	if len(p.Path) == 0 && len(w.deep) == 0 {
 		return
 	}
 	st := ex.lockState(w.mutex)
@@ -2092,7 +2163,7 @@ func (ex *Exec) checkDiscipline(w *lockWatch, p *Pointer, write bool) {
 		if write {
 			kind = "write"
 		}
-		ex.res.Events = append(ex.res.Events, fmt.Sprintf("unlocked %s of %s field %d%s", kind, w.name, p.Path[0].Idx, ex.where()))
+		ex.res.Events = append(ex.res.Events, fmt.Sprintf("unlocked %s of %s %s%s", kind, w.name, pathKey(p.Path), ex.where()))
 		n, _ := ex.ghost["unlockedAccesses"].(*Term)
 		c := int64(0)
 		if n != nil {
